@@ -227,6 +227,32 @@ theorem array_path_eq_dict_path (keys : List σ) (conc : List R) (rs : List (Rea
     intro r _
     simp [keysFor, valueAt_rxnRate, hs, netStoich_mul_arrayRate]
 
+/-- **Reactions written as text: repeated terms add up.**  For a reaction string whose sides are lists of written terms
+    (`X` = coefficient 1, `n X`, parenthesised terms = inactive; the same species may be written several times, bare or with
+    coefficients, active and inactive), the reaction built by `Reaction.from_string` has, for every substance `s`,
+    net stoichiometry `Σ_{terms of prod naming s} n − Σ_{reac} n + Σ_{inactive prod} n − Σ_{inactive reac} n`, the active order
+    of `s` is the sum over the written active reactant terms, and nothing changes when the terms of a side are written in
+    another order.  Together with `rxnRate_spec` / `sysRates_spec`: rates = net·k·∏c^ν over the MULTISET of written terms. -/
+theorem written_terms_spec (reac prod inactReac inactProd : List (ℕ × σ)) (k : R) (s : σ) :
+    let cnt : List (ℕ × σ) → ℕ := fun ts => (ts.map fun t => if t.2 = s then t.1 else 0).sum
+    netStoich (reactionOfTerms reac prod inactReac inactProd k) s =
+        (cnt prod : ℤ) - (cnt reac : ℤ) + (cnt inactProd : ℤ) - (cnt inactReac : ℤ) ∧
+      coef (reactionOfTerms reac prod inactReac inactProd k).reac s = cnt reac ∧
+      (∀ reac' prod' inactReac' inactProd', reac.Perm reac' → prod.Perm prod' → inactReac.Perm inactReac' →
+        inactProd.Perm inactProd' →
+        netStoich (reactionOfTerms reac' prod' inactReac' inactProd' k) s =
+            netStoich (reactionOfTerms reac prod inactReac inactProd k) s ∧
+          coef (reactionOfTerms reac' prod' inactReac' inactProd' k).reac s =
+            coef (reactionOfTerms reac prod inactReac inactProd k).reac s) := by
+  intro cnt
+  have hc : ∀ ts : List (ℕ × σ), coef (mergeTerms ts) s = cnt ts := fun ts => coef_mergeTerms ts s
+  have hp : ∀ ts ts' : List (ℕ × σ), ts.Perm ts' → cnt ts' = cnt ts := fun ts ts' h => ((h.map _).sum_eq).symm
+  refine ⟨?_, hc reac, ?_⟩
+  · simp only [netStoich, reactionOfTerms, hc]
+  · intro reac' prod' inactReac' inactProd' h1 h2 h3 h4
+    simp only [netStoich, reactionOfTerms, hc, hp _ _ h1, hp _ _ h2, hp _ _ h3, hp _ _ h4]
+    exact ⟨trivial, trivial⟩
+
 /-- **Stoichiometry matrices** (`net_stoichs`, `all_reac_stoichs`, `active_reac_stoichs`, `all_prod_stoichs`,
     `active_prod_stoichs`): one row per reaction, one column per key; entry `(i, j)` is the corresponding coefficient of
     substance `keys[j]` in reaction `rs[i]` (and there is an entry exactly when both indices are in range). -/
@@ -301,5 +327,11 @@ example : sysRates exConc exRxns (some ["A", "B", "C", "D", "E"]) (some ⟨"F", 
 
 example : lawOfMassActionRates [1/2, 2, 3, 1, 1] ["A", "B", "C", "D", "E"] exRxns = .ok [3/4, 15] ∧
     dCdtList ["A", "B", "C", "D", "E"] exRxns [3/4, 15] = .ok [57/4, 0, -57/4, -3/4, 0] := by decide +kernel
+
+/-- `e-(aq) + e-(aq) + (H2O) + (H2O) -> H2 + OH- + OH-`: repeated active and repeated inactive terms -/
+example : let r := reactionOfTerms [(1, "e-(aq)"), (1, "e-(aq)")] [(1, "H2"), (1, "OH-"), (1, "OH-")] [(1, "H2O"), (1, "H2O")] [] (3 : ℚ)
+    (r.reac, r.prod, r.inactReac, r.inactProd) = ([("e-(aq)", 2)], [("H2", 1), ("OH-", 2)], [("H2O", 2)], []) ∧
+    netStoichTuple (reactionOfTerms [(1, "e-(aq)"), (1, "e-(aq)")] [(1, "H2"), (1, "OH-"), (1, "OH-")] [(1, "H2O"), (1, "H2O")] [] (3 : ℚ))
+      ["e-(aq)", "H2O", "H2", "OH-"] = [-2, -2, 1, 2] := by decide +kernel
 
 end ChemModel.C03
